@@ -220,8 +220,17 @@ type ChunkWriter struct {
 	pipe    func() (pipeReader, pipeWriter)
 }
 
-// WriteChunk is called with chunked ServiceInfos.
-func (w *ChunkWriter) WriteChunk(kv *KV) error {
+// WriteChunk is called with chunked ServiceInfos. When the queue of unread
+// service info messages is full it waits for the reader to make room.
+func (w *ChunkWriter) WriteChunk(kv *KV) error { return w.writeChunk(kv, true) }
+
+// WriteChunkNoWait is WriteChunk for a writer whose reader only runs once all
+// chunks have been written (the TO2 device collects a whole round of owner
+// service info before its modules process it): waiting for room in a full
+// queue would wait forever, so it fails instead.
+func (w *ChunkWriter) WriteChunkNoWait(kv *KV) error { return w.writeChunk(kv, false) }
+
+func (w *ChunkWriter) writeChunk(kv *KV, wait bool) error {
 	// The service info list of a received message may contain null
 	if kv == nil {
 		return errors.New("service info contains a null key-value pair")
@@ -244,17 +253,14 @@ func (w *ChunkWriter) WriteChunk(kv *KV) error {
 
 	// Create a new IO pipe and send the reader to the UnchunkReader
 	pr, pw := w.pipe()
-	if cap(w.readers) > 0 {
-		// A buffered queue is filled before its reader runs (a round of
-		// received service info is only processed once it is complete), so
-		// waiting for room when it is full would wait forever.
+	if wait {
+		w.readers <- pr
+	} else {
 		select {
 		case w.readers <- pr:
 		default:
 			return fmt.Errorf("more than %d service info messages queued without being read", cap(w.readers))
 		}
-	} else {
-		w.readers <- pr
 	}
 	w.w = pw
 	w.prevKey = kv.Key
@@ -472,8 +478,8 @@ func (w *UnchunkWriter) CloseWithError(err error) error {
 // to the writer will be unchunked and emitted from the reader.
 //
 // With buffers > 0 up to that many service info messages can be written before
-// any is read; WriteChunk fails, rather than blocks, when a further message
-// would exceed the buffer.
+// any is read; a further message makes WriteChunk wait for the reader and
+// WriteChunkNoWait fail.
 func NewChunkInPipe(buffers int) (*UnchunkReader, *ChunkWriter) {
 	readers := make(chan pipeReader)
 	pipe := func() (pipeReader, pipeWriter) { return io.Pipe() }
